@@ -65,7 +65,10 @@ fn main() {
         "find-c03" => find2::gen_c03(&mut w, &tier, seed),
         "find-c05" => find2::gen_c05(&mut w, &tier, seed),
         "find-c07" => find2::gen_c07(&mut w, &tier, seed),
-        "find-c11" => find2::gen_c11(&mut w, &tier, seed),
+        "find-c11" => {
+            find2::gen_c11(&mut w, &tier, seed);
+            find2::gen_c11_numbers(&mut w, &tier, seed);
+        }
         "find-c14" => find2::gen_c14(&mut w, &tier, seed),
         "find-c15" => find2::gen_c15(&mut w, &tier, seed),
         "find-c16" => find2::gen_c16(&mut w, &tier, seed),
